@@ -41,6 +41,20 @@ def class_allocators(crate):
     return sorted(out)
 
 
+def _miss_combinator(crate, b, lcs, reach_alloc):
+    """(combinator call site, closure view) when b hands the lookup's Option to unwrap_or_else / or_else / map_or_else with a closure
+    that reaches the class allocator"""
+    for c in b.calls:
+        if c.callee and c.callee.name in ("unwrap_or_else", "or_else", "map_or_else") and not b.blocks[c.bb]["cleanup"] and len(c.args) >= 2:
+            r0 = strip_role(b.role_of_operand(c.args[0]))
+            if isinstance(r0, tuple) and r0[0] == "call" and len(r0) > 4 and any(r0[4] == l.bb for l in lcs):
+                cl = C._closure_of_role(crate, b.role_of_operand(c.args[1]))
+                if hasattr(cl, "calls") and any(x.callee and x.callee.target in reach_alloc for x in cl.calls):
+                    # (one level: the new slow-path method is looked into, the allocator and the filter stay calls)
+                    return c, mir.inline_view(crate, cl, depth=1)
+    return None
+
+
 @rule("I1", doc="allocation only after a failed lookup; the hit path calls nothing mutating")
 def i1(ctx):
     crate = ctx.lib()
@@ -55,6 +69,20 @@ def i1(ctx):
             continue
         lcs = [c for c in b.calls if c.callee and c.callee.target in lk]
         acs = [c for c in b.calls if c.callee and c.callee.target in reach_alloc and c.callee.target not in lk and c.callee.target != b.id]
+        comb = _miss_combinator(crate, b, lcs, reach_alloc) if lcs and not acs else None
+        if comb is not None:
+            # `self.lookup_internal(&t).unwrap_or_else(|| <allocating slow path>)`: the closure runs exactly when the lookup missed,
+            # the hit path is the payload itself
+            n += 1
+            uc, cl = comb
+            others = [c.callee.name for c in b.calls if c.callee and c is not uc and c.bb in b.reach(b.after(lcs[0].bb)) and not b.blocks[c.bb]["cleanup"]
+                      and any((mir.op_place(a) or {}).get("l") is not None and not (mir.op_place(a) or {}).get("p") and b.local_ty(mir.op_place(a)["l"]).startswith("&mut egraph::EGraph<") for a in c.args)]
+            ctx.check(strip_role(b.role_of_local(0))[0] == "call" and strip_role(b.role_of_local(0))[4] == uc.bb, "lookup-branched:" + C.fkey(b), "%s answers lookup.unwrap_or_else(slow path)" % C.short(b.id),
+                      "%s does not answer with the lookup's payload or the slow path's result" % C.short(b.id), where_of(b))
+            ctx.ok("alloc-after-miss:%s:0" % C.fkey(b), "the allocating slow path is the None-closure of the lookup result", where_of(b, uc.bb))
+            ctx.check(not others, "hit-path-pure:" + C.fkey(b), "the hit path of %s passes the e-graph mutably to nothing" % C.short(b.id),
+                      "on the lookup-hit path %s calls %s with &mut EGraph" % (C.short(b.id), others), where_of(b))
+            continue
         if not lcs or not acs:
             continue
         # only the function that pairs a lookup with the allocation on its miss path: its return
@@ -280,11 +308,23 @@ def i6(ctx):
             continue
         lcs = [c for c in b.calls if c.callee and c.callee.target in lk]
         acs = [c for c in b.calls if c.callee and c.callee.target in reach_alloc and c.callee.target not in lk and c.callee.target != b.id]
+        host = b
+        if lcs and not acs:
+            comb = _miss_combinator(crate, b, lcs, reach_alloc)
+            if comb is not None:
+                host = comb[1]
+                acs = [c for c in host.calls if c.callee and c.callee.target in reach_alloc]
         if not lcs or not acs:
             continue
         if "types::AppliedId" != b.local_ty(0):
             continue
-        for d in b.defs().get(0, []):
+        rdefs = list(host.defs().get(0, []))
+        if host is not b:
+            # (in the view the spliced method's answer arrives by a move: take the call it was computed by)
+            r_ = strip_role(host.role_of_local(0))
+            if isinstance(r_, tuple) and r_[0] == "call" and len(r_) > 4 and host.call_at.get(r_[4]) is not None:
+                rdefs = [{"kind": "call", "call": host.call_at[r_[4]]}]
+        for d in rdefs:
             if d["kind"] != "call":
                 continue
             c = d["call"]
@@ -297,7 +337,7 @@ def i6(ctx):
             reads_slots = [x for x in f.all_calls() if x.callee and x.callee.name == "slots"] or (C.ECLASS, "slots") in {(a[1], a[2]) for a in crate.deps(f).atoms_of_local(f, 0) if a[0] == "field"}
             ok = bool(removes) and bool(reads_slots)
             ctx.check(ok, "alloc-path-semified:" + C.fkey(b), "the freshly allocated class's invocation is returned through %s (drops redundant slots)" % C.short(f.id),
-                      "%s returns the invocation of a freshly allocated class through %s, which does not drop the slots the class proved redundant" % (C.short(b.id), C.short(f.id)), where_of(b, c.bb))
+                      "%s returns the invocation of a freshly allocated class through %s, which does not drop the slots the class proved redundant" % (C.short(b.id), C.short(f.id)), where_of(host, c.bb))
     ctx.floor("allocating return paths", n, 1)
 
 
